@@ -215,6 +215,143 @@ let suite_chunk t v =
   v.cls <- (if !in_d then "D" else "F");
   v.nontrivial <- (nch > nf) || (List.length ipays > 1) || List.exists (fun p -> List.length p > 1) ipays
 
+
+(* ============================ suite Q : queue (C10, C12) ===================== *)
+let suite_queue t v =
+  let nt = ni t in
+  let tags = Array.of_list (times nt (fun () ->
+    let p = nz t in let o = nz t in let c = nz t in let d = nz t in
+    { M.tprio = p; torder = o; tchunk = c; tdelay = d })) in
+  let nops = ni t in
+  let ops = times nops (fun () ->
+    match next t with
+    | "O" -> `Pop (nz t)
+    | "P" ->
+        let k = ni t in
+        `Push (times k (fun () ->
+          let name = bytes_of_hex (next t) in
+          let group = bytes_of_hex (next t) in
+          let tg = ni t in
+          let tm = nz t in
+          let size = nz t in
+          let kind = ni t in
+          let prev, left = if kind = 1 then begin
+              let pv = bytes_of_hex (next t) in
+              let nl = ni t in
+              (pv, times nl (fun () -> let b = nz t in let e = nz t in (b, e))) end else ([], []) in
+          let f = { M.fname = name; ftime = tm; fsize = size; falloc = M.Z0; frec = (kind = 1);
+                    fprev = prev; fleft = left; fused = M.Z0;
+                    fsend = (if kind = 1 then M.send_size left else size) } in
+          ((f, group), (if tg < 0 then None else Some tags.(tg)))))
+    | s -> raise (Malformed ("op " ^ s))) in
+  expect t "=";
+  let q = ref [] in
+  let repushed = ref false in
+  let stop = ref false in
+  let npop = ref 0 in
+  (* for the rotation oracle: (served group name option, [(group name, prio)] ready) per pop *)
+  let hist = ref [] in
+  let find_file_group name st =
+    List.find_opt (fun g -> M.has_name name g.M.gfiles) st in
+  List.iter (fun op ->
+    if not !stop then
+    match op with
+    | `Push batch ->
+        List.iter (fun (((f, gn), _) as it) ->
+          (match M.find_group gn !q with
+           | Some g -> if M.has_name f.M.fname g.M.gfiles then repushed := true
+           | None -> ());
+          q := M.push !q [it]) batch
+    | `Pop now ->
+        let k = string_of_int !npop in
+        incr npop;
+        let iout = if nb t then begin
+            let n = bytes_of_hex (next t) in let o = nz t in let l = nz t in
+            let pv = bytes_of_hex (next t) in let sd = nz t in Some (n, o, l, pv, sd) end else None in
+        let pre = !q in
+        let (q', mout) = M.pop pre now in
+        let ready = List.filter (fun g -> M.group_ready g now) pre in
+        (* ---- oracles against the spec computed on the agreed pre-state ---- *)
+        (match iout with
+         | None ->
+             if ready <> [] then oracle v "idle_while_ready" (mout = None)
+         | Some (n, _, _, pv, _) ->
+             (match find_file_group n pre with
+              | None -> oracle v "emits_unknown_file" false
+              | Some g ->
+                  let pr = g.M.gtag.M.tprio in
+                  if List.exists (fun h -> M.Z.ltb pr h.M.gtag.M.tprio) ready then
+                    oracle v "priority_inversion" false;
+                  let order = g.M.gtag.M.torder in
+                  let pending = List.filter (fun f -> not (M.is_alloc f)) g.M.gfiles in
+                  let f = List.find (fun f -> M.name_eqb f.M.fname n) g.M.gfiles in
+                  (if M.Z.eqb order M.oNONE then
+                     (match pending with
+                      | x :: _ -> if not (M.name_eqb x.M.fname n) then oracle v "not_next_in_arrival_order" false
+                      | [] -> oracle v "emits_allocated_file" false)
+                   else if not (List.for_all (fun y -> M.le_order order f y) pending) then
+                     oracle v "not_least_in_order" false);
+                  (* predecessor *)
+                  let expect_prev =
+                    if M.Z.eqb order M.oNONE then []
+                    else if f.M.frec then f.M.fprev
+                    else begin
+                      (* pre-allocated placeholders standing before f count as "queued as already sent" *)
+                      let rec before acc = function
+                        | [] -> acc
+                        | x :: r -> if M.name_eqb x.M.fname n then acc
+                                    else before (if M.is_alloc x then Some x.M.fname else acc) r in
+                      match before None g.M.gfiles with
+                      | Some x -> x
+                      | None -> (match g.M.gdone with x :: _ -> x | [] -> [])
+                    end in
+                  let expect_prev = if M.name_eqb expect_prev n then [] else expect_prev in
+                  if M.name_eqb pv n && n <> [] then oracle v "names_itself" false;
+                  if not (M.name_eqb pv expect_prev) then begin
+                    let model_same = (match mout with Some m -> M.name_eqb m.M.pprev pv | None -> false) in
+                    if !repushed then oracle v "prev_chain_lost_on_repush" model_same
+                    else oracle v "wrong_predecessor" false
+                  end));
+        (* ---- comparison ---- *)
+        (match iout, mout with
+         | None, None -> ()
+         | Some (n, o, l, pv, sd), Some m ->
+             if not (M.name_eqb n m.M.pname) then diff v ("pop-name@" ^ k)
+             else if not (M.Z.eqb o m.M.poff && M.Z.eqb l m.M.plen) then diff v ("pop-slice@" ^ k)
+             else if not (M.name_eqb pv m.M.pprev) then diff v ("pop-prev@" ^ k)
+             else if not (M.Z.eqb sd m.M.psend) then diff v ("pop-send@" ^ k)
+         | _ -> diff v ("pop-nil@" ^ k));
+        let served = match iout with
+          | Some (n, _, _, _, _) -> (match find_file_group n pre with Some g -> Some g.M.gname | None -> None)
+          | None -> None in
+        hist := (served, List.map (fun g -> (g.M.gname, g.M.gtag.M.tprio)) ready) :: !hist;
+        if v.diffs <> [] then stop := true;
+        q := q') ops;
+  (* ---- rotation: B ready from A's serving through A's next serving => B served in between ---- *)
+  let h = Array.of_list (List.rev !hist) in
+  let n = Array.length h in
+  for i = 0 to n - 1 do
+    match h.(i) with
+    | (Some a, ready_i) ->
+        let pa = (try List.assoc a ready_i with Not_found -> M.Z0) in
+        List.iter (fun (b, pb) ->
+          if b <> a && M.Z.eqb pa pb then begin
+            let rec scan j =
+              if j < n then
+                match h.(j) with
+                | (sj, rj) ->
+                    if not (List.mem_assoc b rj) then ()           (* B no longer ready: released *)
+                    else if sj = Some b then ()                     (* served: fine *)
+                    else if sj = Some a then oracle v "round_robin_bypassed" false
+                    else scan (j + 1) in
+            scan (i + 1)
+          end) ready_i
+    | _ -> ()
+  done;
+  v.cls <- (if !repushed then "F" else "D");
+  let served = List.filter_map (fun (s, _) -> s) (Array.to_list h) in
+  v.nontrivial <- List.length (List.sort_uniq compare served) >= 2 || List.length served >= 4
+
 (* ============================ dispatch ====================================== *)
 let run_line line =
   let t = mk line in
@@ -223,6 +360,7 @@ let run_line line =
      (match next t with
       | "R" -> suite_ranges t v
       | "K" -> suite_chunk t v
+      | "Q" -> suite_queue t v
       | s -> raise (Malformed ("unknown suite " ^ s)))
    with
    | Malformed s -> diff v ("malformed:" ^ s)
